@@ -276,7 +276,9 @@ int main(int argc, char **argv) {
     uint64_t seed = (uint64_t) A.geti("seed", 0);
     int max_m = (int) A.geti("max-m", 62);
     bool weighted = (comp == "sptree" || comp == "collections");
-    auto unit_graph = [&](uint64_t u) { uint64_t uu = (u + seed) % total_units; return blob ? blob->build(uu) : fams.empty() ? vg::graph_from_mask(n, uu) : vg::family(fams[uu]); };
+    int orient_mode = (int) A.geti("orient", 0);
+    auto unit_graph0 = [&](uint64_t u) { uint64_t uu = (u + seed) % total_units; return blob ? blob->build(uu) : fams.empty() ? vg::graph_from_mask(n, uu) : vg::family(fams[uu]); };
+    auto unit_graph = [&](uint64_t u) { vg::EdgeList g = unit_graph0(u); vg::orient(g, orient_mode); return g; };
     auto describe = [&](uint64_t u, uint64_t sub, uint64_t) {
         vg::EdgeList el = unit_graph(u);
         std::vector<double> w;
@@ -308,7 +310,7 @@ int main(int argc, char **argv) {
         std::vector<uint64_t> cyc; if (comp == "collections") cyc = vg::all_simple_cycles(el);
         uint64_t nw = weighted ? vg::num_weightings(alpha, el.m()) : 1;
         B b(el, w);
-        for (uint64_t s = start_sub; s < nw; ++s) {
+        for (uint64_t s = start_sub; s < nw; ++s) { if (R.expired()) break;
             vg::weighting(alpha, el.m(), s, w);
             R.crumb(u, s, 0); R.count(C_INPUTS);
             bool nontriv = comp == "sptree" ? el.m() >= 1 : comp == "forest" ? el.m() >= 1 : dim >= 1;
